@@ -8,6 +8,7 @@ UNIT_MODES = {
     'addsub': ['dbg', 'rel'],
     'powlog': ['dbg', 'rel'],
     'div': ['dbg', 'rel'],
+    'bits': ['dbg', 'rel'],
 }
 
 # property -> verus units owned by the property (dependencies are added automatically) and the
@@ -17,13 +18,19 @@ PROPS = {
     'C02': dict(units=['mul'], title='multiplication exact'),
     'C03': dict(units=['div', 'sdiv'], title='division and remainder'),
     'C05': dict(units=['shift_bits', 'shift_val', 'shift_rot', 'shift_ops'], title='shifts and rotations'),
+    'C06': dict(units=['bits'], title='bitwise logic, counts, bit manipulation'),
     'C07': dict(units=['cmp', 'cmp2'], title='comparison, equality, hashing'),
     'C08': dict(units=['powlog'], title='powers and logarithms'),
+    'C09': dict(units=['xcast'], title='integer casts'),
     'C11': dict(units=['radixout'], title='radix output'),
     'C14': dict(units=[], level='model_checking', title='float casts'),
     'C15': dict(units=['slices'], title='slices and endianness'),
     'C16': dict(units=['consts'], title='digit-type independence and constants'),
 }
+
+# units instantiated for an ordered PAIR of digit types (target `$D..`, source `$D2..`): their entries
+# exist only in pair instantiations; digit tag 'AxB' (e.g. u64xu32 = BUintD32/BIntD32 -> BUint/BInt)
+PAIR_UNITS = {'xcast'}
 
 QUICK_DIGITS = ['u64', 'u8']
 ALL_DIGITS = ['u64', 'u32', 'u16', 'u8']
@@ -31,3 +38,10 @@ ALL_DIGITS = ['u64', 'u32', 'u16', 'u8']
 
 def unit_modes(unit):
     return UNIT_MODES.get(unit, ['dbg'])
+
+
+def unit_digits(unit, digits):
+    """digit tags for which a unit is instantiated: the digit types, or all ordered pairs of them"""
+    if unit in PAIR_UNITS:
+        return [f'{a}x{b}' for a in digits for b in digits if a != b]
+    return list(digits)
